@@ -1,11 +1,12 @@
 (* C10 — OPL permission expressions mean what the same TypeScript means.
-   PARTIAL: acceptance of every documented spelling and the denotation of whole documents are decided by the
-   differential check (generated ASTs in random spellings through the real parser, truth tables compared);
-   proved here are the meaning-preservation of the parser's AST combinators and fixed precedence examples run
-   through the full lexer+parser model inside Coq. *)
+   Proved on the parser model for EVERY permission expression of the grammar (or / and / unary / parentheses, any
+   nesting the parser's limit admits, any operator and parenthesis items, the atom spellings listed below): the parser
+   accepts it, consumes exactly it, and the rewrite it builds has the TypeScript truth value under every valuation.
+   PARTIAL for the rest of a document (type declarations, separators, comments): decided by the differential check
+   (generated ASTs in random spellings through the real parser, truth tables compared). *)
 From Coq Require Import List Bool NArith Strings.String.
 Open Scope string_scope.
-From Keto Require Import Base.Bytes Engine.Ast Opl.Lexer Opl.Parser Opl.TsSem.
+From Keto Require Import Base.Bytes Engine.Ast Opl.Lexer Opl.Parser Opl.TsSem Opl.ExprSound.
 Import ListNotations.
 
 (* flattening of associative operators (simplifyExpression) preserves the truth table, for every expression *)
@@ -27,3 +28,41 @@ Theorem C10_precedence_examples :
   table (perm_p (src_of ("!(" ++ A ++ " || " ++ B ++ ") || " ++ C))) = [true;true;false;true;false;true;false;true] /\
   perm_p (src_of (A ++ " " ++ B)) = None.
 Proof. exact precedence_examples. Qed.
+
+(* the whole expression parser: for every expression o of the grammar  or ::= and ('||' and)*, and ::= unary ('&&' unary)*,
+   unary ::= ['!'] atom | ['!'] '(' or ')'  whose items are well-formed (wf_or: operator and parenthesis items of the
+   right type at any position, atoms in a spelling the atom parser accepts) and whose nesting fits the parser's limit:
+   from any non-failed parser state whose tokens are the expression, the closing ',' and anything else, the permission
+   parser returns a rewrite, has consumed exactly the expression and the ',', has reported nothing, and the rewrite -
+   after simplifyExpression - evaluates to the TypeScript value s_or of the expression under every valuation *)
+Theorem C10_expression_means_typescript : forall (o : orx) (ft : item) (p : pst) (rest : list item),
+  wf_or o -> need_or o <= nesting_limit -> i_typ ft = OComma ->
+  toks p = (r_or o ++ ft :: rest)%list -> fatal p = false ->
+  exists r p', parse_exprs (S (2 * List.length (toks p))) OComma nesting_limit None true p = (Some r, p') /\
+               toks p' = rest /\ fatal p' = false /\ errs p' = errs p /\
+               forall v, eval v (CRewrite (rw_op (simplify r)) (rw_children (simplify r))) = s_or v o.
+Proof. exact expression_means_typescript. Qed.
+(* the atom spellings of the documentation are accepted and denote the right node, at any positions, for any names:
+   this.related.R.includes(ctx.subject), this.related["R"].includes(ctx.subject), this.permits.P(ctx),
+   this.related.R.traverse(x => x.related.CR.includes(ctx.subject)) and ...traverse((x) => ...), ...x.permits.CR(ctx) *)
+Theorem C10_atom_spellings : forall pos,
+  (forall nm, atom_ok (sp_includes pos nm) (CComputed (i_val nm))) /\
+  (forall nm, atom_ok (sp_includes_br pos nm) (CComputed (i_val nm))) /\
+  (forall nm, atom_ok (sp_permits pos nm) (CComputed (i_val nm))) /\
+  (forall paren r x x' cr, i_val x' = i_val x -> arg_item x -> name_item cr ->
+     atom_ok (sp_traverse pos paren r x x' cr) (CTuple (i_val r) (i_val cr))) /\
+  (forall paren r x x' cr, i_val x' = i_val x -> arg_item x -> name_item cr ->
+     atom_ok (sp_traverse_permits pos paren r x x' cr) (CTuple (i_val r) (i_val cr))).
+Proof. exact atom_spellings. Qed.
+(* the hypotheses are satisfiable: !A && (B || C) with three different atom spellings, any positions and names *)
+Theorem C10_expression_theorem_applies : forall pos (na nb r x x' cr : item) (t_not t_and t_or lp rp ft : item) (p : pst) rest,
+  i_typ t_not = ONot -> i_typ t_and = Lexer.OAnd -> i_typ t_or = Lexer.OOr -> i_typ lp = ParenL -> i_typ rp = ParenR -> i_typ ft = OComma ->
+  i_val x' = i_val x -> arg_item x -> name_item cr ->
+  let e := OJust (AAnd (AUn (UAtom (Some t_not) (sp_includes pos na) (CComputed (i_val na)))) t_and
+                       (UParen None lp (OAlt (AUn (UAtom None (sp_permits pos nb) (CComputed (i_val nb)))) t_or
+                                             (OJust (AUn (UAtom None (sp_traverse pos true r x x' cr) (CTuple (i_val r) (i_val cr)))))) rp)) in
+  toks p = (r_or e ++ ft :: rest)%list -> fatal p = false ->
+  exists rw p', parse_exprs (S (2 * List.length (toks p))) OComma nesting_limit None true p = (Some rw, p') /\ toks p' = rest /\ fatal p' = false /\ errs p' = errs p /\
+    forall v, eval v (CRewrite (rw_op (simplify rw)) (rw_children (simplify rw))) =
+              negb (v (i_val na) []) && (v (i_val nb) [] || v (i_val r) (i_val cr)).
+Proof. exact theorem_applies. Qed.
